@@ -3,7 +3,7 @@ import SwayVerif.Model.LspSchedTree
 import SwayVerif.Driver.Util
 /-!
 Driver for C24. Case: `sched <schedule tokens…>`; implementation result:
-`trace=<tid:point,…> end=q:<0|1>,stuck:<n>,lc:<v|none>,latest:<v> skipped=<n>` (see
+`<quiescent|stuck|running> trace=<tid:point,…> end=q:<0|1>,stuck:<n>,lc:<v|none>,latest:<v> skipped=<n> …` (see
 `harness/src/bin/sv_c24.rs`).
 
 * `agree` — the trace of the instrumented server is a run of the model (configuration = the shape
